@@ -1,7 +1,7 @@
 (* C11 — concrete instances showing that the hypotheses of the property
    theorems are satisfiable by non-trivial histories (non-vacuity), all by
    computation. *)
-From Yv Require Import Common.Base C11.Model C11.Spec.
+From Yv Require Import Common.Base C11.Model C11.Spec C11.ScriptModel C11.ScriptSpec.
 
 Definition SIGUSR1 : N := 124.
 
@@ -61,3 +61,56 @@ Lemma ex_subshell :
   /\ o_calls (step SIGUSR1 (OEnterSubshell false false) st) = [Default]
   /\ pending (step_st SIGUSR1 st (OEnterSubshell false false)) = false.
 Proof. repeat split; reflexivity. Qed.
+
+(* ---- scripts ------------------------------------------------------------------------------- *)
+Definition USR1 : N := 124.
+Definition USR2 : N := 125.
+
+(* USR1's action delivers USR2 twice and replaces nothing; USR2's action is a
+   probe; the script delivers USR1 with $? = 42, in the main shell and in a
+   subshell (where the trap is reset and the signal kills the subshell) *)
+Definition ex_tbl : table :=
+  [(1, [BProbe 1001 1; BRaise USR2 2; BRaise USR2 3; BProbe 11 4]);
+   (2, [BProbe 1002 9])]%N.
+
+Definition ex_main : list cmd :=
+  [CB (BTrap USR1 (TBody 1)); CB (BTrap USR2 (TBody 2));
+   CB (BRaise USR1 42); CB (BProbe 1 0);
+   CSub [CB (BProbe 2 5); CB (BRaise USR1 0); CB (BProbe 3 0)];
+   CIf [CB (BRaise USR2 1)] [CB (BProbe 4 0)] [CB (BProbe 5 0)]]%N.
+
+Lemma ex_script_ok : script_ok ex_tbl ex_main = true.
+Proof. reflexivity. Qed.
+
+Definition ex_trace : list event :=
+  [(0, EMark USR1 (TBody 1) 0); (0, EMark USR2 (TBody 2) 0);
+   (0, ERaise USR1 0 42);
+   (0, EProbe 1001 42 1); (0, ERaise USR2 1 2); (0, ERaise USR2 2 3); (0, EProbe 11 3 4);
+   (0, EProbe 1002 42 9);
+   (0, EProbe 1 42 0);
+   (1, EProbe 2 0 5); (1, ERaise USR1 5 0);
+   (0, ERaise USR2 508 1); (0, EProbe 1002 1 9);
+   (0, EProbe 5 1 0)]%N.
+
+Lemma ex_script_runs : run_script ex_tbl 8 ex_main = Some (ex_trace, false).
+Proof. vm_compute. reflexivity. Qed.
+
+Lemma ex_monitor_accepts : monitor false ex_tbl ex_trace false = None.
+Proof. vm_compute. reflexivity. Qed.
+
+(* the monitor is not vacuous: it rejects a lost run, a duplicated run, a run
+   that comes one command late, and a $? that is not restored *)
+Definition tr_prefix : list event :=
+  [(0, EMark USR2 (TBody 2) 0); (0, ERaise USR2 0 7)]%N.
+
+Lemma ex_monitor_rejects :
+  monitor false ex_tbl (tr_prefix ++ [(0, EProbe 1002 7 9); (0, EProbe 1 7 0)])%N false = None
+  /\ monitor false ex_tbl (tr_prefix ++ [(0, EProbe 1 7 0)])%N false = Some R_LATE
+  /\ monitor false ex_tbl tr_prefix false = Some R_LOST
+  /\ monitor false ex_tbl (tr_prefix ++ [(0, EProbe 1002 7 9); (0, EProbe 1002 7 9)])%N false
+     = Some R_SPURIOUS
+  /\ monitor false ex_tbl (tr_prefix ++ [(0, EProbe 1002 7 9); (0, EProbe 1 9 0)])%N false
+     = Some R_STATUS
+  /\ monitor false ex_tbl (tr_prefix ++ [(0, EProbe 1002 0 9); (0, EProbe 1 7 0)])%N false
+     = Some R_STATUS.
+Proof. vm_compute. repeat split. Qed.
